@@ -234,7 +234,7 @@ func (m *tqModel) whoMayTouchCounter() {
 						return false, false
 					})
 					ok, path := Guarded(fn.Blocks[0], in, pass, nil)
-					c.Check(one && ok && len(pass) > 0, "R7", "Add-site:"+FnName(fn), p.InstrPos(in),
+					c.Check(one && ok && nonVacuous(pass), "R7", "Add-site:"+FnName(fn), p.InstrPos(in),
 						"counter incremented by 1 only for an OID not yet registered",
 						"counter increment is not (exactly 1, only on the first-seen edge of the transfers lookup) "+path)
 				}
@@ -1306,7 +1306,7 @@ func (m *tqModel) deliveries() {
 						return false, false
 					})
 					okg, path := Guarded(fn.Blocks[0], in, pass, nil)
-					c.Check(okg && len(pass) > 0, "R8", "deliver:on-success-only", p.InstrPos(in), "watchers are notified only for a result without error", "a transfer is delivered to watchers although its result carries an error: "+path)
+					c.Check(okg && nonVacuous(pass), "R8", "deliver:on-success-only", p.InstrPos(in), "watchers are notified only for a result without error", "a transfer is delivered to watchers although its result carries an error: "+path)
 				case p.Fn("tq", "(*TransferQueue).Add"):
 					pass := PassEdges(fn, func(cond ssa.Value) (bool, bool) {
 						if _, f, _, ok := FieldOf(cond); ok && f == "completed" {
@@ -1315,7 +1315,7 @@ func (m *tqModel) deliveries() {
 						return false, false
 					})
 					okg, path := Guarded(fn.Blocks[0], in, pass, nil)
-					c.Check(okg && len(pass) > 0, "R8", "deliver:duplicate-after-completion", p.InstrPos(in), "a repeated Add is delivered only when the first transfer completed", "a repeated Add is delivered to watchers although the object has not completed: "+path)
+					c.Check(okg && nonVacuous(pass), "R8", "deliver:duplicate-after-completion", p.InstrPos(in), "a repeated Add is delivered only when the first transfer completed", "a repeated Add is delivered to watchers although the object has not completed: "+path)
 				default:
 					c.Bad("R8", "deliver:site:"+FnName(fn), p.InstrPos(in), "watchers are notified from an unexpected function")
 				}
